@@ -17,6 +17,7 @@ seeded identically, so the per-position random factors are the same in both runs
   absolute   SNR equals an independent re-derivation from the formulas (radio_ref, 1e-12)
 """
 import math
+import os
 
 import numpy as np
 
@@ -61,14 +62,23 @@ def ref_snr(E, lo, hi, h_obs, nants, gain):
 _PS = {}
 
 
+def shipped_table():
+    """The shipped waveform parameter table, read from the file by the harness itself (not taken from
+    the object under test, whose copy a change may have cut, cast or rescaled)."""
+    if "ps" not in _PS:
+        import astropy.io.misc.hdf5 as hf
+
+        from ..oracles import tables_ref
+
+        f = hf.read_table_hdf5(os.path.join(tables_ref.data_dir(), "radio_params", "waveform_params.hdf5"))
+        _PS.update(ps=np.array(f["params"], dtype=np.float64), zen=np.array(f["zenith"], dtype=np.float64), h=np.array(f["height"], dtype=np.float64))
+    return _PS["ps"], _PS["zen"], _PS["h"]
+
+
 def param_field_nonzero(beta, alt, band=(30.0, 300.0)):
     """Does the tabulated parametrisation have any non-zero on-axis field for the nearest
     (zenith, height) entry? (some table entries are identically zero)"""
-    if not _PS:
-        from nuspacesim.simulation.eas_radio.radio import RadioEFieldParams
-
-        o = RadioEFieldParams((30.0, 300.0))
-        _PS.update(ps=np.asarray(o.ps), zen=np.asarray(o.zeniths, float), h=np.asarray(o.heights, float))
+    shipped_table()
     zen = np.degrees(np.pi / 2 - beta)
     j = np.argmin(np.abs(zen[:, None] - _PS["zen"][None, :]) + np.abs(alt[:, None] - _PS["h"][None, :]), axis=1)
     p = _PS["ps"][j]
@@ -250,9 +260,7 @@ def bands(ctx, si, payload):
     from nuspacesim.simulation.eas_radio.radio import RadioEFieldParams
     from nuspacesim.simulation.eas_radio.radio_antenna import calculate_snr
 
-    obj = RadioEFieldParams((30.0, 300.0))
-    ps = np.asarray(obj.ps)
-    zen, hts = np.asarray(obj.zeniths), np.asarray(obj.heights)
+    ps, zen, hts = shipped_table()
     rng = ctx.subrng("c20-bands", si)
     for lo, hi in payload["bands"]:
         z, v, h = float(rng.choice(zen)), float(rng.uniform(-2, 2)), float(rng.choice(hts))
